@@ -364,6 +364,8 @@ structure Desc where
   /-- library symbols the renderer resolves by name for a method (`type`, `int`) / for an annotated variable (`int`) -/
   stdMethod : List Key := []
   stdVar : List Key := []
+  /-- library symbols the renderer needs for this module whatever its shape (the library stubs themselves) -/
+  stdAlways : List Key := []
 deriving DecidableEq, Repr
 
 def rootQ : Str := ['f','i','l','e','_','i','n','p','u','t']
@@ -420,6 +422,7 @@ def descCallsOk (ms : Methods) (look : Key → Option Str) : Bool :=
 /-- annotations are resolved again at render time: the library classes behind `int` / the function type -/
 def descStdOk (d : Desc) (ms : Methods) (look : Key → Option Str) : Bool :=
   (ms.isEmpty || d.stdMethod.all (fun k => (look k).isSome)) && (!(d.vars.any (fun v => v.2)) || d.stdVar.all (fun k => (look k).isSome))
+    && d.stdAlways.all (fun k => (look k).isSome)
 
 def descBody (p : ModPath) (ms : Methods) (look : Key → Option Str) : Str :=
   ms.flatMap (fun cm =>
